@@ -216,6 +216,11 @@ impl Reporter {
 		}
 	}
 
+	/// (signature, what) of everything reported so far (used by `verif replay`)
+	pub fn reported(&self) -> Vec<(String, String)> {
+		self.viols.lock().unwrap().iter().map(|(k, v)| (k.clone(), v.what.clone())).collect()
+	}
+
 	pub fn violation_count(&self) -> usize {
 		self.viols.lock().unwrap().len()
 	}
@@ -226,6 +231,11 @@ impl Reporter {
 
 	/// Write evidence + replays, print verdict lines, return the exit code.
 	pub fn finish(&self) -> i32 {
+		let (_, peak, pauses) = crate::mem::stats();
+		self.extra("peak_live_heap_mb_(1MB_granularity)", json!(peak >> 20));
+		if pauses > 0 {
+			self.extra("worker_pauses_for_memory_backpressure", json!(pauses));
+		}
 		let root = crate::verif_root();
 		let known = load_known(&root);
 		let viols = self.viols.lock().unwrap();
